@@ -39,14 +39,11 @@ DESCR = {
 def run(c):
     thorough = c.tier == "thorough"
     sd = c.spec_dir("specA")
-    jobs = [("MC_C15", "MC_C15", 6), ("MC_C15", "MC_C15_live", 3)]
-    if thorough:
-        p = os.path.join(sd, "MC_C15_gen.cfg")
-        txt = open(p).read().replace('FullUnk = {"mix"}', 'FullUnk = {"mix", "lo", "hi", "half"}')
-        open(p, "w").write(txt)
+    jobs = [("MC_C15", "MC_C15_t" if thorough else "MC_C15", 8 if thorough else 6), ("MC_C15", "MC_C15_live", 3)]
+    gencfg = "MC_C15_gen_t" if thorough else "MC_C15_gen"
     with ThreadPoolExecutor(max_workers=3) as ex:
         futs = [ex.submit(c.stage_a, c.spec_dir("specA-" + cfg), mod, cfg, workers=w, timeout=1500) for mod, cfg, w in jobs]
-        res = c.tlc(sd, "MC_C15", "MC_C15_gen", workers=3, timeout=900)
+        res = c.tlc(sd, "MC_C15", gencfg, workers=3, timeout=900)
         if not res.clean:
             raise Infra("case generator failed:\n" + res.out[-2000:])
         cases = [json.loads(json.loads(ln)) for ln in res.printed if ln.startswith('"{')]
@@ -77,7 +74,7 @@ def run(c):
         c.count_distinct(hash(ln[:j]))
     c.cov["evaluations"] = calls
     # ---- stage C
-    mism = c.validate("Trace_C15", events, shards=14 if thorough else 12)
+    mism = c.validate("Trace_C15", events, shards=14 if thorough else 12, timeout=2400)
 
     def ev_at(idx): return json.loads(events[idx])
 
